@@ -111,7 +111,8 @@ func VC02_Response() {
 		}
 		vias = append(vias, v)
 		if i > 0 && rt.Bool("comma") {
-			head += "," + v.text
+			// a comma-separated list may be written with blanks around the comma
+			head += []string{",", ", ", " ,\t "}[rt.Choice("comma-blanks", 3)] + v.text
 		} else {
 			if i > 0 {
 				head += "\r\n"
